@@ -121,6 +121,12 @@ def gen_explicit(tier, seed):
                                 continue
                             yield {"slice": "explicit", "d": d, "box": box, "L": L, "placement": name, "frames": fr,
                                    "types": types, "qlist": ql, "q": qlist(ql, d), "mode": "explicit", "csv": False}
+                            if F > 1 and len(set(types)) > 1 and ql in ("six", "neg"):
+                                # the species attached to the ids change from frame to frame (same composition: swap moves, relabelled frames)
+                                tv = [types[f:] + types[:f] for f in range(F)]
+                                if tv[1] != tv[0]:
+                                    yield {"slice": "explicit", "d": d, "box": box, "L": L, "placement": name, "frames": fr, "types": types,
+                                           "types_frames": tv, "qlist": ql, "q": qlist(ql, d), "mode": "explicit", "csv": False}
 
 
 # ----------------------------------------------------------------------------------- slice C
@@ -210,13 +216,16 @@ def _run(case):
     if not qint:
         # an empty wave-vector set is not a meaningful request; nothing to decide
         return R.screen()
-    ref, qn = sq_loops(frames, L, types, qint)
+    tsrc = case.get("types_frames") or types
+    if case.get("types_frames"):
+        sig["types_vary"] = True
+    ref, qn = sq_loops(frames, L, tsrc, qint)
     groups = group_norms(qn, 6)
     if groups is None:
         return R.screen()
     cols = expected_columns(types, "Sq")
 
-    snaps = mk_snaps([np.array(f, float) for f in frames], np.diag(L), np.array(types))
+    snaps = mk_snaps([np.array(f, float) for f in frames], np.diag(L), [np.array(t) for t in tsrc] if case.get("types_frames") else np.array(types))
     before = [s.positions.copy() for s in snaps.snapshots]
     out = "sq_out.csv" if case["csv"] else None
     kw = {"outputfile": out}
